@@ -373,6 +373,37 @@ def resolve_rule(fname: str):
     return order, kernel
 
 
+def cache_invalidation():
+    """`PosBase.__setattr__` / `__setitem__`: does *every* attribute assignment (so also `pos.ellipsoid = E`) and every item
+    assignment drop the cached conversions before anything else happens?  True only for the shapes
+    `def __setattr__(self, key, value): self.clear_cache(); …` (first statement, unconditional) and
+    `def __setitem__(self, key, item): self._clear_dependent_caches(); …` / `self.clear_cache(); …`"""
+    tree = ast.parse((util.REPO / POSITION_PY).read_text())
+    cl = _classes(tree)
+    node = cl.get("PosBase")
+    res = {"__setattr__": False, "__setitem__": False}
+    overridden = []
+    for cname, c in cl.items():
+        for fn in c.body:
+            if isinstance(fn, ast.FunctionDef) and fn.name in res:
+                if cname != "PosBase":
+                    overridden.append((cname, fn.name))
+                    continue
+                body = [st for st in fn.body if not (isinstance(st, ast.Expr) and isinstance(st.value, ast.Constant))]
+                if body and isinstance(body[0], ast.Expr) and isinstance(body[0].value, ast.Call):
+                    src = ast.unparse(body[0].value)
+                    if fn.name == "__setattr__":
+                        res[fn.name] = src == "self.clear_cache()"
+                    else:
+                        res[fn.name] = src in ("self._clear_dependent_caches()", "self.clear_cache()")
+    # `_clear_dependent_caches` clears the object's own cache
+    own = False
+    for fn in (node.body if node else []):
+        if isinstance(fn, ast.FunctionDef) and fn.name == "_clear_dependent_caches":
+            own = any(isinstance(n, ast.Call) and ast.unparse(n) == "self.clear_cache()" for n in ast.walk(fn))
+    return res["__setattr__"], res["__setitem__"] and own, not overridden
+
+
 def delta_empty_from():
     """`PositionDeltaArray.empty_from` (inherited by PosVelDeltaArray): the `ellipsoid=` of the NaN reference position"""
     tree = ast.parse((util.REPO / POSITION_PY).read_text())
@@ -429,6 +460,11 @@ def render() -> str:
         "",
         "/-- `empty_from` of the difference classes: the `ellipsoid=` of the NaN reference position (`keep` = `other.ref_pos.ellipsoid`) -/",
         "def deltaEmptyFrom : List (ACls × ExtFwd) := [" + ", ".join(f"({c}, .{w})" for c, w in delta_empty_from()) + "]",
+        "",
+        "/-- `PosBase.__setattr__` drops the cached conversions on every attribute assignment (first statement, unconditional);",
+        "`__setitem__` on every item assignment; no subclass overrides either -/",
+        "def setattrClearsCache : Bool := " + ("true" if cache_invalidation()[0] and cache_invalidation()[2] else "false"),
+        "def setitemClearsCache : Bool := " + ("true" if cache_invalidation()[1] and cache_invalidation()[2] else "false"),
         "",
         "end Midgard.Generated.EllipsoidArith",
         "",
